@@ -529,6 +529,33 @@ class Body:
             return o
         return o
 
+    def root_place(self, p, through_names=False, limit=10):
+        """rewrite a place so that its base local is a named local / argument: unnamed single-assignment temporaries that
+        merely copy or borrow another place are substituted (`*(&x)` cancels)."""
+        p = {"l": p["l"], "p": list(p["p"])}
+        for _ in range(limit):
+            l = p["l"]
+            if (l in self.names and not through_names) or 1 <= l <= self.argc or l == 0:
+                if not (through_names and l in self.names and not (1 <= l <= self.argc)):
+                    return p
+            ds = self.defs.get(l, [])
+            if len(ds) != 1 or ds[0][2] != "rv":
+                return p
+            rv = ds[0][3]
+            if rv["k"] == "use":
+                ip = op_place(rv["o"])
+                if ip is None:
+                    return p
+                p = {"l": ip["l"], "p": list(ip["p"]) + p["p"]}
+            elif rv["k"] == "ref":
+                if p["p"] and p["p"][0] == "*":
+                    p = {"l": rv["p"]["l"], "p": list(rv["p"]["p"]) + p["p"][1:]}
+                else:
+                    return p
+            else:
+                return p
+        return p
+
     def def_rv(self, o):
         """the defining rvalue/call of an operand that is an unnamed single-def temporary, else None."""
         o = self.resolve_copy(o)
